@@ -65,6 +65,7 @@ def api_case(draw, sub="api"):
     case = {"sub": sub, "paired": paired, "ad1": ad1, "ad2": ad2, "glob": glob, "times": times, "action": action,
             "reads1": reads1, "reads2": reads2}
     if sub == "cli":
+        case["cores"] = draw(st.sampled_from([1, 1, 2, 3]))
         case["rename"] = draw(st.sampled_from([None, None, "{id} rc={rc} an={adapter_name}"])) if not paired else \
             draw(st.sampled_from([None, None, "{id} an={r1.adapter_name},{r2.adapter_name}"]))
     return case
@@ -178,14 +179,22 @@ def check_cli(case, ctx):
     o = {"times": times, "action": action, "revcomp": True}
     if case.get("rename"):
         o["rename"] = case["rename"]
-    r1 = [[f"r{i}x", s, quals(s, i)] for i, s in enumerate(case["reads1"])]
-    r2 = [[f"r{i}x", s, quals(s, i + 3)] for i, s in enumerate(case["reads2"])] if paired else None
+    cores = case.get("cores", 1)
+    reps = 1 if cores == 1 else 5  # several chunks, so that every worker flags some reads
+    rs1 = list(case["reads1"]) * reps
+    rs2 = list(case["reads2"]) * reps if paired else None
+    r1 = [[f"r{i}x", s, quals(s, i)] for i, s in enumerate(rs1)]
+    r2 = [[f"r{i}x", s, quals(s, i + 3)] for i, s in enumerate(rs2)] if paired else None
     sc = {"paired": paired, "fastq": True, "ad1": case["ad1"], "ad2": case["ad2"],
           "glob": dict(case["glob"], no_index=True), "o": o, "r1": r1, "r2": r2}
     args = scen.flatten(scen.mod_tokens(sc)) + ["--json", "rep.json", "-o", "out1.fastq"]
     files, names = scen.input_files(sc)
     if paired:
         args += ["-p", "out2.fastq"]
+    if cores > 1:
+        biggest = max(len(x[0]) + 2 * len(x[1]) + 8 for x in r1 + (r2 or []))
+        args = ["-j", str(cores), "--buffer-size", str(2 * biggest + 16)] + args
+        ctx.label(f"cores:{cores}")
     r = cli.run(args + names, files)
     if r.exit != 0:
         raise Violation(f"cutadapt failed on {args}: exit={r.exit} {r.errors} {r.tb}")
